@@ -153,3 +153,8 @@ def run(ck, prog, ctx):
         owner = prog.bodies[b.root].short if b.kind == "Closure" and b.root in prog.bodies else b.short
         ck.ob("SIBLING", "membership/" + owner, s["inclusive"], "%s tests the %s roots against %s" % (owner, s["root"], " ∪ ".join(s["fields"])), where=b.where(s["term"].line))
     ck.floor("SIBLING", "membership predicates on HpoTerm", len(sites), 2)
+
+    # ---- accessors: a method named after a field returns that field, not a sibling of the same type
+    ck.rule("GETTER", "an accessor `f()` / `f_mut()` of a struct with a field `f` (or its documented alias) derives its result from that field (DESIGN 3.9)")
+    from engines import check_getters
+    check_getters(ck, "GETTER", prog, r"^src/ontology\.rs$", floor=6)
